@@ -345,3 +345,58 @@ Definition l_free_dup (d : option (nat * nat)) (s : lstate) : lstate :=
 (* MPI calls of MPI_Comm_dup on this rank: 11 Comm_dup (intranode), 12 Comm_dup (internode) inside the copy callback,
    13 the duplication of the communicator itself *)
 Definition calls_dup (attached : bool) : list nat := (if attached then [11; 12] else []) ++ [13].
+
+(* ---- HISTORIES of attach / detach / dup / free on one communicator and its duplicate ------------------------------------------ *)
+(* communicator 0 = the original, 1 = its duplicate (exists between HDup and HFreeDup).  D = a division of the ranks into nodes
+   (what an attach that succeeds attaches: the processes_per_node passed, or the equally sized classes MPI_Comm_split_type reported).
+   h_attr c = the attribute value of communicator c: the ids of its (intranode, internode) pair and the division they realise.
+   HAttach c (Some d): sc_mpi_comm_attach_node_comms creates two communicators and MPI_Comm_set_attr replaces the attribute - the delete
+                       callback frees the pair attached before; HAttach c None: MPI_Comm_split_type reported nodes of different sizes,
+                       the communicator just created is freed, NOTHING else changes (an older attachment stays);
+   HDetach c: MPI_Comm_delete_attr (delete callback); HDup: MPI_Comm_dup of the original (copy callback: two new communicators realising
+   the same division); HFreeDup: MPI_Comm_free of the duplicate (delete callback). *)
+Section History.
+  Variable D : Type.
+  Record hstate := mk_hs { h_live : list nat; h_next : nat; h_attr : nat -> option (nat * nat * D); h_dup : bool }.
+  Inductive hop := HAttach (c : nat) (d : option D) | HDetach (c : nat) | HDup | HFreeDup.
+  Definition h_valid (s : hstate) (c : nat) : bool := (c =? 0) || ((c =? 1) && h_dup s).
+  Definition release (o : option (nat * nat * D)) (l : list nat) : list nat :=
+    match o with Some (a, b, _) => remove Nat.eq_dec b (remove Nat.eq_dec a l) | None => l end.
+  Definition hstep (s : hstate) (o : hop) : option hstate :=
+    match o with
+    | HAttach c (Some d) =>
+      if h_valid s c then
+        let a := h_next s in let b := S a in
+        Some (mk_hs (release (h_attr s c) (b :: a :: h_live s)) (S b) (upd (h_attr s) c (Some (a, b, d))) (h_dup s))
+      else None
+    | HAttach c None =>
+      if h_valid s c then Some (mk_hs (remove Nat.eq_dec (h_next s) (h_next s :: h_live s)) (S (h_next s)) (h_attr s) (h_dup s)) else None
+    | HDetach c =>
+      if h_valid s c then Some (mk_hs (release (h_attr s c) (h_live s)) (h_next s) (upd (h_attr s) c None) (h_dup s)) else None
+    | HDup =>
+      if h_dup s then None else
+      match h_attr s 0 with
+      | Some (_, _, d) => let a := h_next s in let b := S a in
+                          Some (mk_hs (b :: a :: h_live s) (S b) (upd (h_attr s) 1 (Some (a, b, d))) true)
+      | None => Some (mk_hs (h_live s) (h_next s) (upd (h_attr s) 1 None) true)
+      end
+    | HFreeDup =>
+      if h_dup s then Some (mk_hs (release (h_attr s 1) (h_live s)) (h_next s) (upd (h_attr s) 1 None) false) else None
+    end.
+  Definition hinit : hstate := mk_hs [] 0 (fun _ => None) false.
+  Fixpoint hrun (s : hstate) (h : list hop) : option hstate :=
+    match h with [] => Some s | o :: t => match hstep s o with Some s' => hrun s' t | None => None end end.
+  Definition h_division (s : hstate) (c : nat) : option D := match h_attr s c with Some (_, _, d) => Some d | None => None end.
+
+  (* SPECIFICATION: the division in force, without any communicator ids: the last attach that attached, until a detach / free *)
+  Definition dstep (cur : nat -> option D) (o : hop) : nat -> option D :=
+    match o with
+    | HAttach c (Some d) => upd cur c (Some d)
+    | HAttach c None => cur
+    | HDetach c => upd cur c None
+    | HDup => upd cur 1 (cur 0)
+    | HFreeDup => upd cur 1 None
+    end.
+  Definition in_force (h : list hop) : nat -> option D := fold_left dstep h (fun _ => None).
+End History.
+Arguments HDup {D}. Arguments HFreeDup {D}. Arguments HDetach {D} c. Arguments hinit {D}.
